@@ -209,6 +209,181 @@ pub fn gen_rule(m: &Material, rng: &mut Rng, k: &mut Knobs, depth: usize) -> Val
   r
 }
 
+
+/// field name under which `child` hangs below `parent` (cursor view), if any
+fn field_of(parent: &N, child: &N, lang: SupportLang) -> Option<String> {
+  let tsl = lang.get_ts_language();
+  let mut cursor = parent.get_ts_node().walk();
+  if !cursor.goto_first_child() {
+    return None;
+  }
+  loop {
+    if cursor.node().id() == child.get_ts_node().id() {
+      return cursor.field_id().and_then(|f| tsl.field_name_for_id(f)).map(|s| s.to_string());
+    }
+    if !cursor.goto_next_sibling() {
+      return None;
+    }
+  }
+}
+
+fn simple_text(t: &str) -> bool {
+  !t.is_empty() && t.len() <= 60 && !t.contains('\n') && !t.contains('"') && !t.contains('\\') && !t.contains('\'') && !t.contains('$')
+}
+
+/// Rules derived from the shape of the document itself, so that the interesting branch of every
+/// operator is actually taken (random rules mostly fail on their first atom):
+///  * relational rules along a real ancestor path / sibling run, with `stopBy` = neighbor, end, the
+///    kind of an intermediate node or of the target, and `field` = the real field of the path child
+///    or another one;
+///  * (share_vars) a pattern with one child replaced by `$A`, combined with a sub-rule that mentions
+///    `$A` again under not / any / all / has / inside / follows / precedes / nthChild.ofRule.
+pub fn battery(root: &N, lang: SupportLang, m: &Material, rng: &mut Rng, share_vars: bool, want: usize) -> Vec<Value> {
+  let all: Vec<N> = root.dfs().collect();
+  let mut out = vec![];
+  if all.len() < 3 {
+    return out;
+  }
+  let mut tries = 0;
+  while out.len() < want && tries < want * 20 {
+    tries += 1;
+    let n = rng.pick(&all).clone();
+    let anc: Vec<N> = n.ancestors().collect();
+    let kind_of = |x: &N| json!({"kind": x.kind().to_string()});
+    let okk = |x: &N| x.is_named() && !x.kind().is_empty() && x.kind() != "ERROR";
+    match rng.below(if share_vars { 8 } else { 5 }) {
+      // inside along the ancestor path
+      0 | 1 if anc.len() >= 2 && okk(&n) => {
+        let d = 1 + rng.below(anc.len() - 1).min(4);
+        let outer = &anc[d];
+        if !okk(outer) {
+          continue;
+        }
+        let path_child = &anc[d - 1];
+        let mut sub = kind_of(outer);
+        sub["stopBy"] = match rng.below(5) {
+          0 => json!("neighbor"),
+          1 => json!("end"),
+          2 => kind_of(&anc[rng.below(d)]),
+          3 => kind_of(outer),
+          _ => {
+            let x = rng.pick(&all);
+            if okk(x) { kind_of(x) } else { json!("end") }
+          }
+        };
+        if rng.chance(2, 3) {
+          let f = field_of(outer, path_child, lang);
+          sub["field"] = match f {
+            Some(f) if rng.chance(3, 4) => json!(f),
+            _ if !m.fields.is_empty() => json!(rng.pick(&m.fields)),
+            _ => continue,
+          };
+        }
+        let mut r = kind_of(&n);
+        r["inside"] = sub;
+        if rng.chance(1, 4) {
+          r = json!({"not": r});
+        }
+        out.push(json!({"rule": r}));
+      }
+      // has down a real descendant path
+      2 if anc.len() >= 2 && okk(&n) => {
+        let d = 1 + rng.below(anc.len() - 1).min(4);
+        let outer = &anc[d];
+        if !okk(outer) {
+          continue;
+        }
+        let top_child = &anc[d - 1];
+        let mut sub = kind_of(&n);
+        sub["stopBy"] = match rng.below(4) {
+          0 => json!("neighbor"),
+          1 => json!("end"),
+          2 => kind_of(&anc[rng.below(d)]),
+          _ => kind_of(&n),
+        };
+        if rng.chance(2, 3) {
+          let f = field_of(outer, top_child, lang);
+          sub["field"] = match f {
+            Some(f) if rng.chance(3, 4) => json!(f),
+            _ if !m.fields.is_empty() => json!(rng.pick(&m.fields)),
+            _ => continue,
+          };
+        }
+        let mut r = kind_of(outer);
+        r["has"] = sub;
+        out.push(json!({"rule": r}));
+      }
+      // follows / precedes along a real sibling run
+      3 | 4 => {
+        let Some(p) = n.parent() else { continue };
+        let sibs: Vec<N> = p.children().collect();
+        if sibs.len() < 2 {
+          continue;
+        }
+        let i = rng.below(sibs.len());
+        let j = rng.below(sibs.len());
+        if i == j || !okk(&sibs[i]) || !okk(&sibs[j]) {
+          continue;
+        }
+        let rel = if i < j { "precedes" } else { "follows" };
+        let (lo, hi) = (i.min(j), i.max(j));
+        let mut sub = kind_of(&sibs[j]);
+        sub["stopBy"] = match rng.below(4) {
+          0 => json!("neighbor"),
+          1 => json!("end"),
+          2 if hi - lo >= 2 && okk(&sibs[lo + 1 + rng.below(hi - lo - 1)]) => kind_of(&sibs[lo + 1 + rng.below(hi - lo - 1)]),
+          _ => kind_of(&sibs[j]),
+        };
+        let mut r = kind_of(&sibs[i]);
+        if rng.chance(1, 3) {
+          let named: Vec<&N> = sibs.iter().filter(|s| s.is_named()).collect();
+          if let Some(pos) = named.iter().position(|s| s.node_id() == sibs[i].node_id()) {
+            r["nthChild"] = json!(pos + 1);
+          }
+        }
+        r[rel] = sub;
+        out.push(json!({"rule": r}));
+      }
+      // shared variable: pattern with child i holed, sub-rule mentioning $A again
+      _ => {
+        let kids: Vec<N> = n.children().filter(|c| c.is_named()).collect();
+        if kids.is_empty() || !simple_text(&n.text()) {
+          continue;
+        }
+        let i = rng.below(kids.len());
+        let c = &kids[i];
+        let (ns, cs, ce) = (n.range().start, c.range().start, c.range().end);
+        let t = n.text();
+        let pat = format!("{}$A{}", &t[..cs - ns], &t[ce - ns..]);
+        let j = rng.below(kids.len());
+        let again = match rng.below(7) {
+          0 => json!({"has": {"pattern": "$A", "nthChild": j + 1}}),
+          1 => match field_of(&n, &kids[j], lang) {
+            Some(f) => json!({"has": {"pattern": "$A", "field": f, "stopBy": "end"}}),
+            None => json!({"has": {"pattern": "$A", "nthChild": j + 1, "stopBy": "end"}}),
+          },
+          2 => json!({"has": {"kind": kids[j].kind().to_string(), "follows": {"pattern": "$A", "stopBy": "end"}}}),
+          3 => json!({"has": {"kind": kids[j].kind().to_string(), "precedes": {"pattern": "$A", "stopBy": "end"}}}),
+          4 => json!({"has": {"nthChild": {"position": 1, "ofRule": {"pattern": "$A"}}, "stopBy": "end"}}),
+          5 => json!({"inside": {"has": {"pattern": "$A", "stopBy": "end"}, "stopBy": "end"}}),
+          _ => json!({"has": {"any": [{"pattern": "$A", "nthChild": j + 1}, {"pattern": "$B", "nthChild": j + 1}]}}),
+        };
+        let wrapped = match rng.below(6) {
+          0 | 1 => json!({"not": again}),
+          2 => json!({"not": {"not": again}}),
+          3 => json!({"any": [again, {"not": again}]}),
+          4 => json!({"all": [again]}),
+          _ => again,
+        };
+        let mut r = json!({"pattern": pat});
+        merge(&mut r, wrapped);
+        out.push(json!({"rule": r}));
+      }
+    }
+  }
+  out
+}
+
 /// `{rule, constraints?, utils?}` as JSON text (YAML is a superset of JSON)
 pub fn gen_core(m: &Material, rng: &mut Rng, share_vars: bool, depth: usize) -> Value {
   let mut k = Knobs { share_vars, utils: vec![], var_counter: 0 };
@@ -328,8 +503,8 @@ pub fn small_sources(rng: &mut Rng, variants: usize) -> Vec<Source> {
 }
 
 pub fn rules_unit(ctx: &Ctx, rng: &mut Rng, o: &mut Out, share_vars: bool) {
-  let variants = if ctx.thorough { 12 } else { 2 };
-  let rules_per_src = if ctx.thorough { 60 } else { 24 };
+  let variants = if ctx.thorough { 16 } else { 4 };
+  let rules_per_src = if ctx.thorough { 60 } else { 30 };
   let sources = small_sources(rng, variants);
   let mut loaded = 0usize;
   let mut rejected = 0usize;
@@ -350,9 +525,15 @@ pub fn rules_unit(ctx: &Ctx, rng: &mut Rng, o: &mut Out, share_vars: bool) {
     let tid = format!("R{si}");
     let ids = register_tree(o, &tid, src, &root);
     let m = harvest(&root, src.lang, rng);
-    for _ in 0..rules_per_src {
+    let derived = battery(&root, src.lang, &m, rng, share_vars, rules_per_src / 2);
+    let n_derived = derived.len();
+    let mut derived = derived.into_iter();
+    for _ in 0..rules_per_src + n_derived {
       let depth = 1 + rng.below(3);
-      let spec = gen_core(&m, rng, share_vars, depth);
+      let spec = match derived.next() {
+        Some(d) => d,
+        None => gen_core(&m, rng, share_vars, depth),
+      };
       let core = match guard_load(&spec, src.lang) {
         Ok(c) => c,
         Err(_) => {
